@@ -600,3 +600,744 @@ Proof.
            destruct Hcause as [H|[H|(b & sb & Hb & Cb & Eb)]]; auto.
            right. right. exists b, sb. split; [right; auto|auto].
 Qed.
+
+(* ------------------------------------------------------------------ more list facts *)
+Fixpoint nodupb (l : list name) : bool :=
+  match l with [] => true | x :: t => negb (memb x t) && nodupb t end.
+
+Lemma nodupb_NoDup l : nodupb l = true -> NoDup l.
+Proof.
+  induction l as [|x t IH]; simpl; intro H; constructor.
+  - apply andb_true_iff in H. destruct H as [H _]. apply negb_true_iff in H. now apply memb_false.
+  - apply IH. apply andb_true_iff in H. tauto.
+Qed.
+
+Lemma NoDup_keys_functional {A} (l : list (name * A)) n v1 v2 :
+  NoDup (map fst l) -> In (n, v1) l -> In (n, v2) l -> v1 = v2.
+Proof.
+  induction l as [|[k w] t IH]; simpl; intros Hn H1 H2; [tauto|].
+  inversion Hn; subst.
+  destruct H1 as [H1|H1], H2 as [H2|H2].
+  - congruence.
+  - inversion H1; subst. exfalso. apply H3. apply in_map_iff. exists (n, v2). auto.
+  - inversion H2; subst. exfalso. apply H3. apply in_map_iff. exists (n, v1). auto.
+  - auto.
+Qed.
+
+Lemma NoDup_keys_lookup {A} (l : list (name * A)) n v :
+  NoDup (map fst l) -> In (n, v) l -> lookup n l = Some v.
+Proof.
+  intros Hn Hin. destruct (lookup n l) eqn:E.
+  - apply lookup_In in E. f_equal. eapply NoDup_keys_functional; eauto.
+  - apply lookup_None_not_In in E. exfalso. apply E. apply in_map_iff. exists (n, v). auto.
+Qed.
+
+Lemma In_fold_dset_gen {A B} (f : B -> name) (g : B -> A) xs acc x w :
+  In (x, w) (fold_left (fun acc b => dset (f b) (g b) acc) xs acc) ->
+  (exists b, In b xs /\ x = f b /\ w = g b) \/ In (x, w) acc.
+Proof.
+  revert acc. induction xs as [|b t IH]; simpl; intro acc; auto.
+  intro H. destruct (IH _ H) as [(b' & Hb & E)|H1].
+  - left. exists b'. auto.
+  - apply In_dset in H1. destruct H1 as [[-> ->]|H1]; auto. left. exists b. auto.
+Qed.
+
+(* fold of dset = "last binding wins" *)
+Lemma lookup_fold_dset {A} (xs : list (name * A)) acc n :
+  lookup n (fold_left (fun acc p => dset (fst p) (snd p) acc) xs acc) =
+  match lookup n (rev xs) with Some v => Some v | None => lookup n acc end.
+Proof.
+  revert acc. induction xs as [|[k v] t IH]; simpl; intro acc; auto.
+  rewrite IH, lookup_app. destruct (lookup n (rev t)); auto.
+  simpl. rewrite lookup_dset. destruct (String.eqb k n); auto.
+Qed.
+
+Lemma lookup_functional_table {A} (xs : list (name * A)) n v :
+  In (n, v) xs -> (forall v', In (n, v') xs -> v' = v) ->
+  lookup n (fold_left (fun acc p => dset (fst p) (snd p) acc) xs []) = Some v.
+Proof.
+  intros Hin Hf. rewrite lookup_fold_dset.
+  destruct (lookup n (rev xs)) eqn:E.
+  - apply lookup_In in E. apply in_rev in E. f_equal. auto.
+  - apply lookup_None_not_In in E. exfalso. apply E.
+    apply in_map_iff. exists (n, v). split; auto. now apply in_rev in Hin.
+Qed.
+
+Lemma lookup_table_None {A} (xs : list (name * A)) n :
+  ~ In n (map fst xs) ->
+  lookup n (fold_left (fun acc p => dset (fst p) (snd p) acc) xs []) = None.
+Proof.
+  intro H. rewrite lookup_fold_dset.
+  destruct (lookup n (rev xs)) eqn:E; auto.
+  apply lookup_In in E. apply in_rev in E. exfalso. apply H. apply in_map_iff. exists (n, a). auto.
+Qed.
+
+(* registering a table with distinct keys *)
+Lemma register_methods_lookup ms d n :
+  NoDup (map fst ms) ->
+  lookup n (register_methods d ms) =
+  match lookup n ms with
+  | Some g => if mem n d && negb (is_spec_reserved n) then lookup n d
+              else Some (EGen g (is_function g))
+  | None => lookup n d
+  end.
+Proof.
+  unfold register_methods. revert d. induction ms as [|[k g] t IH]; simpl; intros d Hn; auto.
+  inversion Hn; subst. rewrite IH by auto.
+  destruct (String.eqb_spec k n).
+  - subst. assert (lookup n t = None) as -> by (now apply lookup_None_not_In).
+    destruct (mem n d && negb (is_spec_reserved n)); auto. apply lookup_dset_same.
+  - assert (E1 : lookup n (if mem k d && negb (is_spec_reserved k) then d
+                          else dset k (EGen g (is_function g)) d) = lookup n d).
+    { destruct (mem k d && negb (is_spec_reserved k)); auto. now apply lookup_dset_other. }
+    assert (E2 : mem n (if mem k d && negb (is_spec_reserved k) then d
+                       else dset k (EGen g (is_function g)) d) = mem n d).
+    { unfold mem at 1 3. rewrite E1. reflexivity. }
+    rewrite E1, E2. reflexivity.
+Qed.
+
+(* ------------------------------------------------------------------ the attribute table *)
+Section Attrs.
+  Variable singular : name -> option name.
+
+  Lemma attrs0_In c k a s :
+    In (a, s) (attrs0 singular c k) -> s = mk_aspec singular c k a true /\ In a (managed_attrs c k).
+  Proof.
+    unfold attrs0. intro H. apply In_fold_dset_gen in H. destruct H as [(b & Hb & -> & ->)|[]]. auto.
+  Qed.
+
+  Lemma attrs0_keys c k a : In a (map fst (attrs0 singular c k)) <-> In a (managed_attrs c k).
+  Proof.
+    unfold attrs0. rewrite (fold_dset_keys (fun a => a) (fun a => mk_aspec singular c k a true)).
+    rewrite map_id. simpl. tauto.
+  Qed.
+
+  Lemma attrs0_NoDup c k : NoDup (map fst (attrs0 singular c k)).
+  Proof. unfold attrs0. apply fold_dset_NoDup. constructor. Qed.
+
+  Lemma attrs1_In c k a s :
+    In (a, s) (attrs1 singular c k) ->
+    (s = mk_aspec singular c k a true /\ In a (managed_attrs c k)) \/
+    (a_helpers s = false).
+  Proof.
+    unfold attrs1. destruct (active (c_key c)) as [key|]; [|left; now apply attrs0_In].
+    destruct (mem key (attrs0 singular c k)); [left; now apply attrs0_In|].
+    rewrite in_app_iff. intros [H|[H|[]]]; [left; now apply attrs0_In|].
+    inversion H; subst. right. reflexivity.
+  Qed.
+
+  Lemma attrs1_NoDup c k : NoDup (map fst (attrs1 singular c k)).
+  Proof.
+    unfold attrs1. destruct (active (c_key c)) as [key|]; [|apply attrs0_NoDup].
+    destruct (mem key (attrs0 singular c k)) eqn:E; [apply attrs0_NoDup|].
+    rewrite map_app. simpl. apply NoDup_snoc; [apply attrs0_NoDup|now apply mem_false_not_In].
+  Qed.
+
+  Lemma attrs1_helpers c k a :
+    In a (managed_attrs c k) ->
+    In (a, mk_aspec singular c k a true) (attrs1 singular c k).
+  Proof.
+    intro H. assert (In (a, mk_aspec singular c k a true) (attrs0 singular c k)) as H0.
+    { apply attrs0_keys in H. apply in_map_iff in H. destruct H as ([a' s] & E & Hin). simpl in E. subst.
+      destruct (attrs0_In _ _ _ _ Hin) as [-> _]. exact Hin. }
+    unfold attrs1. destruct (active (c_key c)) as [key|]; auto.
+    destruct (mem key (attrs0 singular c k)); auto. apply in_app_iff. auto.
+  Qed.
+End Attrs.
+
+(* ------------------------------------------------------------------ who is managed *)
+Lemma nonempty_false {A} (o : option (list A)) : nonempty o = false <-> olist o = [].
+Proof. destruct o as [[|x t]|]; simpl; split; intro H; try reflexivity; discriminate. Qed.
+
+Lemma inherit_iff c : inherit_annotations c = true <-> uses_annotations c.
+Proof.
+  unfold inherit_annotations, uses_annotations. rewrite orb_true_iff, negb_true_iff, orb_false_iff, !nonempty_false.
+  destruct (c_attrs_skip c); simpl.
+  - split; intros _; right; [discriminate|reflexivity].
+  - split; (intros [H|H]; [left; exact H|]); [discriminate|exfalso; apply H; reflexivity].
+Qed.
+
+Lemma active_Some o a : active o = Some a <-> (o = Some a /\ a <> "").
+Proof.
+  unfold active. destruct o as [n|]; [|split; [discriminate|intros [H _]; discriminate]].
+  destruct (String.eqb_spec n ""); split.
+  - discriminate.
+  - intros [H Hn]. inversion H; subst. contradiction.
+  - intro H. inversion H; subst. auto.
+  - intros [H Hn]. exact H.
+Qed.
+
+Lemma dattrs_keys c a :
+  In a (map fst (dattrs c)) <->
+  In a (olist (c_attrs c)) \/ In a (map fst (olist (c_attrs_typed c))) \/ (c_overflow c = Some a /\ a <> "").
+Proof.
+  unfold dattrs.
+  set (l1 := fold_left (fun acc a => dset a None acc) (olist (c_attrs c)) []).
+  set (l2 := fold_left (fun acc p => dset (fst p) (snd p) acc) (olist (c_attrs_typed c)) l1).
+  assert (H1 : In a (map fst l1) <-> In a (olist (c_attrs c))).
+  { unfold l1. rewrite (fold_dset_keys (fun a => a) (fun _ => @None aty)). rewrite map_id. simpl. tauto. }
+  assert (H2 : In a (map fst l2) <-> In a (map fst (olist (c_attrs_typed c))) \/ In a (olist (c_attrs c))).
+  { unfold l2. rewrite (fold_dset_keys fst snd). rewrite H1. tauto. }
+  destruct (active (c_overflow c)) as [o|] eqn:E.
+  - rewrite In_map_fst_dset, H2. apply active_Some in E.
+    split.
+    + intros [->|[H|H]]; auto.
+    + intros [H|[H|[H Hn]]]; auto. left. destruct E as [E _]. congruence.
+  - rewrite H2. split; [tauto|]. intros [H|[H|H]]; auto.
+    apply active_Some in H. congruence.
+Qed.
+
+Lemma managed_iff_requested c k a :
+  existsb is_private (map fst (dattrs c)) = false ->
+  (In a (managed_attrs c k) <-> requested c k a).
+Proof.
+  intro Hp. unfold managed_attrs, requested. rewrite in_app_iff, dattrs_keys.
+  destruct (inherit_annotations c) eqn:Ei.
+  - apply inherit_iff in Ei. rewrite filter_In, andb_true_iff, !negb_true_iff, memb_false. tauto.
+  - assert (~ uses_annotations c) by (rewrite <- inherit_iff; congruence). simpl. tauto.
+Qed.
+
+Lemma managed_not_private c k a :
+  existsb is_private (map fst (dattrs c)) = false ->
+  In a (managed_attrs c k) -> is_private a = false.
+Proof.
+  intros Hp. unfold managed_attrs. rewrite in_app_iff. intros [H|H].
+  - destruct (inherit_annotations c); [|destruct H].
+    apply filter_In in H. destruct H as [_ H]. apply andb_true_iff in H. destruct H as [H _].
+    now apply negb_true_iff in H.
+  - destruct (is_private a) eqn:E; auto.
+    assert (existsb is_private (map fst (dattrs c)) = true) by (apply existsb_exists; eauto).
+    congruence.
+Qed.
+
+(* ------------------------------------------------------------------ registrations *)
+Lemma core_methods_NoDup c : NoDup (map fst (core_methods c)).
+Proof. apply nodupb_NoDup. destruct c as [? [|] [|] [|] ? ? ? ? ?]; reflexivity. Qed.
+
+Lemma core_methods_shape c n g :
+  In (n, g) (core_methods c) ->
+  (first_is_underscore n = true /\ helper_gen g = false) \/ (exists t, n = top_name t /\ g = GTop t).
+Proof.
+  unfold core_methods. rewrite !in_app_iff. intros [H|[H|[H|[H|H]]]].
+  - destruct (c_init c); [|destruct H]. destruct H as [H|[]]. inversion H; subst. left; auto.
+  - destruct (c_repr c); [|destruct H]. destruct H as [H|[]]. inversion H; subst. left; auto.
+  - destruct (c_eq c); [|destruct H]. destruct H as [H|[]]. inversion H; subst. left; auto.
+  - simpl in H. repeat (destruct H as [H|H]; [inversion H; subst; left; auto|]). destruct H.
+  - apply in_map_iff in H. destruct H as (t & E & _). inversion E; subst. right. eauto.
+Qed.
+
+Lemma attr_methods_shape attrs n g :
+  In (n, g) (flat_map attr_methods attrs) ->
+  exists a s, In (a, s) attrs /\ a_helpers s = true /\
+    ((exists p, n = scalar_name p a /\ g = GScalar p a) \/
+     (exists p kd, a_ty s = TColl kd /\ n = elem_name p (a_item s) /\ g = GElem p a kd (a_item s))).
+Proof.
+  intro H. apply in_flat_map in H. destruct H as ([a s] & Hin & H). exists a, s. split; auto.
+  unfold attr_methods in H. destruct (a_helpers s); [|destruct H]. split; auto.
+  apply in_app_iff in H. destruct H as [H|H].
+  - apply in_map_iff in H. destruct H as (p & E & _). inversion E; subst. left. eauto.
+  - destruct (a_ty s) as [|kd] eqn:Et; [destruct H|].
+    apply in_map_iff in H. destruct H as (p & E & _). inversion E; subst. right. eauto.
+Qed.
+
+Lemma attr_methods_scalar attrs a s p :
+  In (a, s) attrs -> a_helpers s = true ->
+  In (scalar_name p a, GScalar p a) (flat_map attr_methods attrs).
+Proof.
+  intros Hin Hh. apply in_flat_map. exists (a, s). split; auto.
+  unfold attr_methods. rewrite Hh. apply in_app_iff. left.
+  apply in_map_iff. exists p. split; auto. destruct p; simpl; auto.
+Qed.
+
+Lemma attr_methods_elem attrs a s p kd :
+  In (a, s) attrs -> a_helpers s = true -> a_ty s = TColl kd ->
+  In (elem_name p (a_item s), GElem p a kd (a_item s)) (flat_map attr_methods attrs).
+Proof.
+  intros Hin Hh Ht. apply in_flat_map. exists (a, s). split; auto.
+  unfold attr_methods. rewrite Hh, Ht. apply in_app_iff. right.
+  apply in_map_iff. exists p. split; auto. destruct p; simpl; auto.
+Qed.
+
+(* an attribute table in which element names shadow nothing *)
+Definition unambiguous (attrs : list (name * aspec)) : Prop :=
+  (forall a s, In (a, s) attrs -> is_coll s = true -> ~ In (a_item s) (map fst attrs)) /\
+  (forall a s1 b s2, In (a, s1) attrs -> In (b, s2) attrs -> is_coll s1 = true -> is_coll s2 = true ->
+     a_item s1 = a_item s2 -> (a, s1) = (b, s2)).
+
+Lemma is_coll_TColl s kd : a_ty s = TColl kd -> is_coll s = true.
+Proof. unfold is_coll. intros ->. reflexivity. Qed.
+
+Lemma registrations_functional c attrs n g1 g2 :
+  unambiguous attrs ->
+  In (n, g1) (registrations c attrs) -> In (n, g2) (registrations c attrs) -> g1 = g2.
+Proof.
+  intros [U1 U2]. unfold registrations. rewrite !in_app_iff. intros [H1|H1] [H2|H2].
+  - eapply NoDup_keys_functional; eauto using core_methods_NoDup.
+  - exfalso. apply core_methods_shape in H1. apply attr_methods_shape in H2.
+    destruct H2 as (a & s & _ & _ & [(p & -> & _)|(p & kd & _ & -> & _)]);
+      destruct H1 as [[H1 _]|(t & H1 & _)].
+    + rewrite scalar_name_letter in H1. discriminate.
+    + eapply scalar_not_top; eauto.
+    + rewrite elem_name_letter in H1. discriminate.
+    + eapply elem_not_top; eauto.
+  - exfalso. apply core_methods_shape in H2. apply attr_methods_shape in H1.
+    destruct H1 as (a & s & _ & _ & [(p & -> & _)|(p & kd & _ & -> & _)]);
+      destruct H2 as [[H2 _]|(t & H2 & _)].
+    + rewrite scalar_name_letter in H2. discriminate.
+    + eapply scalar_not_top; eauto.
+    + rewrite elem_name_letter in H2. discriminate.
+    + eapply elem_not_top; eauto.
+  - apply attr_methods_shape in H1, H2.
+    destruct H1 as (a & s & Hin1 & _ & [(p & -> & ->)|(p & kd & Ht & -> & ->)]);
+      destruct H2 as (b & s' & Hin2 & _ & [(q & E & ->)|(q & kd' & Ht' & E & ->)]).
+    + apply sprefix_inj in E. destruct E; subst. reflexivity.
+    + exfalso. apply scalar_elem_eq in E. subst.
+      apply (U1 _ _ Hin2 (is_coll_TColl _ _ Ht')). apply in_map_iff. exists (a_item s', s). auto.
+    + exfalso. symmetry in E. apply scalar_elem_eq in E. subst.
+      apply (U1 _ _ Hin1 (is_coll_TColl _ _ Ht)). apply in_map_iff. exists (a_item s, s'). auto.
+    + apply eprefix_inj in E. destruct E as [-> E].
+      assert ((a, s) = (b, s')) as Hs by (eapply U2; eauto using is_coll_TColl).
+      inversion Hs; subst. congruence.
+Qed.
+
+Section Results.
+  Variable singular : name -> option name.
+
+  Lemma decorate_follows c k d :
+    decorate singular c k = Ok d ->
+    existsb is_private (map fst (dattrs c)) = false /\
+    follows (map fst (attrs1 singular c k)) [] (attrs1 singular c k) (d_attrs d) /\
+    map fst (d_attrs d) = map fst (attrs1 singular c k).
+  Proof.
+    intro H. apply decorate_with_inv in H. destruct H as (a2 & Hp & Hr & Ha & _). subst a2.
+    split; auto. split; [now apply resolve_follows|now apply resolve_keys in Hr].
+  Qed.
+
+  Lemma decorate_unambiguous c k d : decorate singular c k = Ok d -> unambiguous (d_attrs d).
+  Proof.
+    intro H. destruct (decorate_follows _ _ _ H) as (_ & F & K). split.
+    - intros a s Hin Hc. rewrite K. exact (proj1 (follows_avoid _ _ _ _ F _ _ Hin Hc)).
+    - eapply follows_inj; eauto.
+  Qed.
+
+  (* ---- C16_no_shadowing *)
+  Theorem no_shadowing c k d n g1 g2 :
+    decorate singular c k = Ok d ->
+    In (n, g1) (registrations c (d_attrs d)) -> In (n, g2) (registrations c (d_attrs d)) -> g1 = g2.
+  Proof. intro H. apply registrations_functional. eapply decorate_unambiguous; eauto. Qed.
+
+  Lemma d_attrs_NoDup c k d : decorate singular c k = Ok d -> NoDup (map fst (d_attrs d)).
+  Proof. intro H. destruct (decorate_follows _ _ _ H) as (_ & _ & K). rewrite K. apply attrs1_NoDup. Qed.
+
+  (* the attributes of the result that carry helpers are the requested ones *)
+  Lemma d_attrs_helpers c k d a s :
+    decorate singular c k = Ok d -> In (a, s) (d_attrs d) -> a_helpers s = true ->
+    requested c k a /\ a_ty s = attr_type c k a /\ is_private a = false.
+  Proof.
+    intros H Hin Hh. destruct (decorate_follows _ _ _ H) as (Hp & F & _).
+    destruct (follows_pointwise _ _ _ _ F _ _ Hin) as (s0 & Hin0 & Ht & Hh0 & _).
+    destruct (attrs1_In _ _ _ _ _ Hin0) as [[-> Hm]|Hf]; [|congruence].
+    split; [now apply managed_iff_requested|]. split; [rewrite Ht; reflexivity|].
+    eapply managed_not_private; eauto.
+  Qed.
+
+  Lemma d_attrs_requested c k d a :
+    decorate singular c k = Ok d -> requested c k a ->
+    exists s, In (a, s) (d_attrs d) /\ a_helpers s = true /\ a_ty s = attr_type c k a.
+  Proof.
+    intros H Hr. destruct (decorate_follows _ _ _ H) as (Hp & F & K).
+    apply managed_iff_requested in Hr; auto.
+    pose proof (attrs1_helpers singular _ _ _ Hr) as Hin1.
+    assert (In a (map fst (d_attrs d))) as Hk.
+    { rewrite K. apply in_map_iff. exists (a, mk_aspec singular c k a true). auto. }
+    apply in_map_iff in Hk. destruct Hk as ([a' s] & E & Hin). simpl in E. subst a'.
+    exists s. split; auto.
+    destruct (follows_pointwise _ _ _ _ F _ _ Hin) as (s0 & Hin0 & Ht & Hh0 & _).
+    assert (s0 = mk_aspec singular c k a true) as ->
+      by (eapply NoDup_keys_functional; eauto using attrs1_NoDup).
+    split; [rewrite Hh0; reflexivity|rewrite Ht; reflexivity].
+  Qed.
+
+  Definition item_of (d : deco) (a : name) : name :=
+    match lookup a (d_attrs d) with Some s => a_item s | None => "" end.
+
+  Lemma item_of_In c k d a s :
+    decorate singular c k = Ok d -> In (a, s) (d_attrs d) -> item_of d a = a_item s.
+  Proof.
+    intros H Hin. unfold item_of. erewrite NoDup_keys_lookup; eauto using d_attrs_NoDup.
+  Qed.
+
+  (* the class dictionary, name by name *)
+  Lemma decorate_dict c k d n :
+    decorate singular c k = Ok d -> (n <> "__new__" \/ c_lazy c = false) ->
+    let base :=
+      if String.eqb n "__dataclass_fields__" || String.eqb n "__spec_class__" then Some EMeta
+      else match lookup n (body k) with
+           | Some m => Some (if mem n (d_attrs d) && is_decl m then ELifted m else EUser m)
+           | None => if String.eqb n "__annotations__" then Some EMeta else None
+           end in
+    lookup n (d_dict d) =
+    match lookup n (rev (registrations c (d_attrs d))) with
+    | Some g => match base with
+                | Some e => if is_spec_reserved n then Some (EGen g (is_function g)) else Some e
+                | None => Some (EGen g (is_function g))
+                end
+    | None => base
+    end.
+  Proof.
+    intros H Hn. pose proof H as Hinv. apply decorate_with_inv in Hinv.
+    destruct Hinv as (a2 & _ & Hres & Ha & _ & Hd). simpl in Hd. subst a2.
+    assert (Hk : map fst (d_attrs d) = map fst (attrs1 singular c k)) by (now apply resolve_keys in Hres).
+    set (d0 := lift_body (attrs1 singular c k) (body k)) in *.
+    set (d1 := if mem "__annotations__" d0 then d0 else dset "__annotations__" EMeta d0) in *.
+    set (d2 := dset "__dataclass_fields__" EMeta (dset "__spec_class__" EMeta d1)) in *.
+    assert (L0 : lookup n d0 = match lookup n (body k) with
+                 | Some m => Some (if mem n (d_attrs d) && is_decl m then ELifted m else EUser m)
+                 | None => None end).
+    { unfold d0. rewrite lookup_lift_body. rewrite (mem_same_keys (d_attrs d) (attrs1 singular c k)); auto. }
+    assert (L1 : lookup n d1 = match lookup n (body k) with
+                 | Some m => Some (if mem n (d_attrs d) && is_decl m then ELifted m else EUser m)
+                 | None => if String.eqb n "__annotations__" then Some EMeta else None end).
+    { unfold d1. destruct (String.eqb_spec n "__annotations__").
+      - subst n. unfold mem. rewrite L0. destruct (lookup "__annotations__" (body k)); auto.
+        apply lookup_dset_same.
+      - destruct (mem "__annotations__" d0).
+        + rewrite L0. destruct (lookup n (body k)); auto.
+        + rewrite lookup_dset_other by congruence. rewrite L0. destruct (lookup n (body k)); auto. }
+    assert (L2 : lookup n d2 =
+      if String.eqb n "__dataclass_fields__" || String.eqb n "__spec_class__" then Some EMeta
+      else match lookup n (body k) with
+           | Some m => Some (if mem n (d_attrs d) && is_decl m then ELifted m else EUser m)
+           | None => if String.eqb n "__annotations__" then Some EMeta else None end).
+    { unfold d2. rewrite !lookup_dset. rewrite (String.eqb_sym "__dataclass_fields__"), (String.eqb_sym "__spec_class__").
+      destruct (String.eqb n "__dataclass_fields__"); simpl; auto.
+      destruct (String.eqb n "__spec_class__"); auto. }
+    cbv zeta. rewrite <- L2.
+    assert (L3 : lookup n (d_dict d) = lookup n (register_methods d2 (method_table (registrations c (d_attrs d))))).
+    { rewrite Hd. destruct (c_lazy c); auto. rewrite lookup_dset_other; auto. destruct Hn; congruence. }
+    rewrite L3, register_methods_lookup by (unfold method_table; apply fold_dset_NoDup; constructor).
+    unfold method_table. rewrite lookup_fold_dset. simpl.
+    destruct (lookup n (rev (registrations c (d_attrs d)))) as [g|]; auto.
+    unfold mem. destruct (lookup n d2); simpl; auto.
+    destruct (is_spec_reserved n); auto.
+  Qed.
+End Results.
+
+Lemma reserved_underscore n : is_spec_reserved n = true -> first_is_underscore n = true.
+Proof.
+  unfold is_spec_reserved, first_is_underscore. destruct n as [|a n']; [simpl; auto|].
+  change (prefix "__spec_class" (String a n')) with (if ascii_dec "_" a then prefix "_spec_class" n' else false).
+  change (prefix "_" (String a n')) with (if ascii_dec "_" a then prefix "" n' else false).
+  destruct (ascii_dec "_" a); [|discriminate]. intros _. destruct n'; reflexivity.
+Qed.
+
+Lemma top_name_letter t : first_is_underscore (top_name t) = false.
+Proof. destruct t; reflexivity. Qed.
+
+Lemma letter_neq n s : first_is_underscore n = false -> first_is_underscore s = true -> n <> s.
+Proof. intros H1 H2 E. subst. congruence. Qed.
+
+Lemma scalar_name_in4 p a : In (scalar_name p a) (scalar4 a).
+Proof. destruct p; simpl; auto. Qed.
+Lemma elem_name_in4 p a : In (elem_name p a) (elem4 a).
+Proof. destruct p; simpl; auto. Qed.
+Lemma in_scalar4 n a : In n (scalar4 a) -> exists p, n = scalar_name p a.
+Proof.
+  simpl. intros [H|[H|[H|[H|[]]]]]; subst;
+    [exists SWith|exists SUpdate|exists STransform|exists SReset]; reflexivity.
+Qed.
+Lemma in_elem4 n a : In n (elem4 a) -> exists p, n = elem_name p a.
+Proof.
+  simpl. intros [H|[H|[H|[H|[]]]]]; subst;
+    [exists EWith|exists EUpdate|exists ETransform|exists EWithout]; reflexivity.
+Qed.
+Lemma in_top3 n : In n top3 <-> exists t, n = top_name t.
+Proof.
+  split.
+  - simpl. intros [H|[H|[H|[]]]]; subst; [exists TUpdate|exists TTransform|exists TReset]; reflexivity.
+  - intros [t ->]. destruct t; simpl; auto.
+Qed.
+
+Section Theorems.
+  Variable singular : name -> option name.
+
+  Lemma helper_reg_letter c attrs n g :
+    In (n, g) (registrations c attrs) -> helper_gen g = true -> first_is_underscore n = false.
+  Proof.
+    unfold registrations. rewrite in_app_iff. intros [H|H] Hg.
+    - apply core_methods_shape in H. destruct H as [[_ H]|(t & -> & _)]; [congruence|apply top_name_letter].
+    - apply attr_methods_shape in H.
+      destruct H as (a & s & _ & _ & [(p & -> & _)|(p & kd & _ & -> & _)]);
+        [apply scalar_name_letter|apply elem_name_letter].
+  Qed.
+
+  Lemma top_registered c attrs t : In (top_name t, GTop t) (registrations c attrs).
+  Proof.
+    unfold registrations, core_methods. rewrite !in_app_iff. left. do 4 right.
+    apply in_map_iff. exists t. split; auto. destruct t; simpl; auto.
+  Qed.
+
+  Lemma lookup_rev_regs c k d n g :
+    decorate singular c k = Ok d -> In (n, g) (registrations c (d_attrs d)) ->
+    lookup n (rev (registrations c (d_attrs d))) = Some g.
+  Proof.
+    intros H Hin. destruct (lookup n (rev (registrations c (d_attrs d)))) eqn:E.
+    - apply lookup_In in E. apply in_rev in E. f_equal. eapply no_shadowing; eauto.
+    - apply lookup_None_not_In in E. exfalso. apply E. apply in_map_iff. exists (n, g).
+      split; auto. now apply in_rev in Hin.
+  Qed.
+
+  Lemma decorate_lazy_new c k d :
+    decorate singular c k = Ok d -> c_lazy c = true ->
+    lookup "__new__" (d_dict d) = Some (EGen GNewHook true).
+  Proof.
+    intros H Lz. apply decorate_with_inv in H. destruct H as (a2 & _ & _ & _ & _ & Hd). simpl in Hd.
+    rewrite Hd, Lz. apply lookup_dset_same.
+  Qed.
+
+  (* a generated entry is the lazy __new__ hook or one of the registrations *)
+  Lemma dict_gen_from_regs c k d n g b :
+    decorate singular c k = Ok d -> lookup n (d_dict d) = Some (EGen g b) ->
+    (g = GNewHook) \/
+    (In (n, g) (registrations c (d_attrs d)) /\ b = is_function g /\
+     (lookup n (body k) = None \/ is_spec_reserved n = true)).
+  Proof.
+    intros H L.
+    assert (Hcase : (n = "__new__" /\ c_lazy c = true) \/ (n <> "__new__" \/ c_lazy c = false)).
+    { destruct (String.eqb_spec n "__new__"); destruct (c_lazy c); auto. }
+    destruct Hcase as [[-> Lz]|Hn].
+    - rewrite (decorate_lazy_new _ _ _ H Lz) in L. inversion L. auto.
+    - rewrite (decorate_dict singular c k d n H Hn) in L. cbv zeta in L.
+      destruct (lookup n (rev (registrations c (d_attrs d)))) as [g'|] eqn:E.
+      + apply lookup_In in E. apply in_rev in E.
+        destruct (String.eqb n "__dataclass_fields__" || String.eqb n "__spec_class__").
+        * destruct (is_spec_reserved n) eqn:R; inversion L; subst. right. auto.
+        * destruct (lookup n (body k)) eqn:Lb.
+          -- destruct (is_spec_reserved n) eqn:R.
+             ++ inversion L; subst. right. auto.
+             ++ destruct (mem n (d_attrs d) && is_decl m); discriminate.
+          -- destruct (String.eqb n "__annotations__").
+             ++ destruct (is_spec_reserved n) eqn:R; inversion L; subst. right. auto.
+             ++ inversion L; subst. right. auto.
+      + destruct (String.eqb n "__dataclass_fields__" || String.eqb n "__spec_class__"); [discriminate|].
+        destruct (lookup n (body k)).
+        * destruct (mem n (d_attrs d) && is_decl m); discriminate.
+        * destruct (String.eqb n "__annotations__"); discriminate.
+  Qed.
+
+  (* a registration whose name the body does not occupy is in the dictionary *)
+  Lemma reg_in_dict c k d n g :
+    decorate singular c k = Ok d -> In (n, g) (registrations c (d_attrs d)) ->
+    first_is_underscore n = false -> lookup n (body k) = None ->
+    lookup n (d_dict d) = Some (EGen g (is_function g)).
+  Proof.
+    intros H Hin Hl Hb.
+    assert (Hn : n <> "__new__") by (apply letter_neq; auto).
+    rewrite (decorate_dict singular c k d n H (or_introl Hn)). cbv zeta.
+    rewrite (lookup_rev_regs _ _ _ _ _ H Hin), Hb.
+    assert (String.eqb n "__dataclass_fields__" = false) as -> by (apply String.eqb_neq, letter_neq; auto).
+    assert (String.eqb n "__spec_class__" = false) as -> by (apply String.eqb_neq, letter_neq; auto).
+    assert (String.eqb n "__annotations__" = false) as -> by (apply String.eqb_neq, letter_neq; auto).
+    reflexivity.
+  Qed.
+
+  (* ---- C16_exact_helper_set *)
+  Theorem exact_helper_set c k d n :
+    decorate singular c k = Ok d ->
+    (is_helper_entry (lookup n (d_dict d)) <->
+     expected_helper c k (item_of d) n /\ lookup n (body k) = None).
+  Proof.
+    intro H. split.
+    - intros (g & b & L & Hg).
+      destruct (dict_gen_from_regs _ _ _ _ _ _ H L) as [->|(Hin & _ & Hb)]; [discriminate|].
+      pose proof (helper_reg_letter _ _ _ _ Hin Hg) as Hl.
+      destruct Hb as [Hb|Hb]; [|apply reserved_underscore in Hb; congruence].
+      split; auto.
+      unfold registrations in Hin. apply in_app_iff in Hin. destruct Hin as [Hin|Hin].
+      + apply core_methods_shape in Hin. destruct Hin as [[Hu _]|(t & -> & _)]; [congruence|].
+        left. apply in_top3. eauto.
+      + apply attr_methods_shape in Hin.
+        destruct Hin as (a & s & Hin & Hh & [(p & -> & _)|(p & kd & Ht & -> & _)]);
+          destruct (d_attrs_helpers singular _ _ _ _ _ H Hin Hh) as (Hr & Hty & _).
+        * right. left. exists a. split; auto. apply scalar_name_in4.
+        * right. right. exists a, kd. split; auto. split; [unfold declared; congruence|].
+          rewrite (item_of_In singular _ _ _ _ _ H Hin). apply elem_name_in4.
+    - intros [He Hb].
+      assert (exists g, In (n, g) (registrations c (d_attrs d)) /\ helper_gen g = true) as (g & Hin & Hg).
+      { destruct He as [He|[(a & Hr & He)|(a & kd & Hr & Hd & He)]].
+        - apply in_top3 in He. destruct He as [t ->]. exists (GTop t). split; auto using top_registered.
+        - apply in_scalar4 in He. destruct He as [p ->].
+          destruct (d_attrs_requested singular _ _ _ _ H Hr) as (s & Hin & Hh & _).
+          exists (GScalar p a). split; auto. unfold registrations. apply in_app_iff. right.
+          eapply attr_methods_scalar; eauto.
+        - apply in_elem4 in He. destruct He as [p ->].
+          destruct (d_attrs_requested singular _ _ _ _ H Hr) as (s & Hin & Hh & Hty).
+          rewrite (item_of_In singular _ _ _ _ _ H Hin).
+          exists (GElem p a kd (a_item s)). split; auto. unfold registrations. apply in_app_iff. right.
+          eapply attr_methods_elem; eauto. unfold declared in Hd. congruence. }
+      exists g, (is_function g). split; auto.
+      eapply reg_in_dict; eauto. eapply helper_reg_letter; eauto.
+  Qed.
+
+  (* ---- element helpers are named by the documented rule *)
+  Definition colls_of (d : deco) : list name :=
+    map fst (filter (fun p => is_coll (snd p)) (d_attrs d)).
+
+  Lemma colls_of_In d a : In a (colls_of d) <-> exists s, In (a, s) (d_attrs d) /\ is_coll s = true.
+  Proof.
+    unfold colls_of. rewrite in_map_iff. split.
+    - intros ([a' s] & E & Hin). simpl in E. subst. apply filter_In in Hin. eauto.
+    - intros (s & Hin & Hc). exists (a, s). split; auto. apply filter_In. auto.
+  Qed.
+
+  Lemma attrs1_item c k a s : In (a, s) (attrs1 singular c k) -> a_item s = get_singular_form singular a.
+  Proof.
+    unfold attrs1. destruct (active (c_key c)) as [key|].
+    - destruct (mem key (attrs0 singular c k)).
+      + intro H. apply attrs0_In in H. destruct H as [-> _]. reflexivity.
+      + rewrite in_app_iff. intros [H|[H|[]]].
+        * apply attrs0_In in H. destruct H as [-> _]. reflexivity.
+        * inversion H; subst. reflexivity.
+    - intro H. apply attrs0_In in H. destruct H as [-> _]. reflexivity.
+  Qed.
+
+  Theorem item_names_follow_rule c k d :
+    decorate singular c k = Ok d ->
+    item_rule singular (map fst (d_attrs d)) (colls_of d) (item_of d).
+  Proof.
+    intro H. destruct (decorate_follows singular _ _ _ H) as (_ & F & K).
+    unfold item_rule. repeat split.
+    - intros a Ha. apply colls_of_In in Ha. destruct Ha as (s & Hin & Hc).
+      rewrite (item_of_In singular _ _ _ _ _ H Hin).
+      destruct (follows_pointwise _ _ _ _ F _ _ Hin) as (s0 & Hin0 & _ & _ & [E|E]); auto.
+      left. rewrite E. eapply attrs1_item; eauto.
+    - intros a Ha. apply colls_of_In in Ha. destruct Ha as (s & Hin & Hc).
+      rewrite (item_of_In singular _ _ _ _ _ H Hin). rewrite K.
+      exact (proj1 (follows_avoid _ _ _ _ F _ _ Hin Hc)).
+    - intros a b Ha Hb E. apply colls_of_In in Ha, Hb.
+      destruct Ha as (s1 & Hin1 & Hc1). destruct Hb as (s2 & Hin2 & Hc2).
+      rewrite (item_of_In singular _ _ _ _ _ H Hin1), (item_of_In singular _ _ _ _ _ H Hin2) in E.
+      assert ((a, s1) = (b, s2)) as Hs by (eapply follows_inj; eauto). congruence.
+    - intros a Ha Hne. apply colls_of_In in Ha. destruct Ha as (s & Hin & Hc).
+      rewrite (item_of_In singular _ _ _ _ _ H Hin) in Hne.
+      destruct (follows_cause _ _ _ _ F _ _ Hin Hc) as (s0 & Hin0 & Hcase).
+      rewrite (attrs1_item _ _ _ _ Hin0) in Hcase.
+      destruct Hcase as [E|(_ & _ & [Hc1|[[]|(b & sb & Hb & Cb & Eb)]])]; [congruence| |].
+      + left. rewrite K. exact Hc1.
+      + right. exists b. split; [apply colls_of_In; eauto|]. split.
+        * intro; subst b.
+          assert (sb = s) by (eapply NoDup_keys_functional; eauto using d_attrs_NoDup). subst. congruence.
+        * rewrite (item_of_In singular _ _ _ _ _ H Hb). exact Eb.
+  Qed.
+
+  (* ---- C16_private_unmanaged *)
+  Theorem private_unmanaged c k d :
+    decorate singular c k = Ok d ->
+    (forall a s, In (a, s) (d_attrs d) -> a_helpers s = true -> is_private a = false) /\
+    (forall n g b a, lookup n (d_dict d) = Some (EGen g b) -> gen_attr g = Some a -> is_private a = false).
+  Proof.
+    intro H. split.
+    - intros a s Hin Hh. eapply d_attrs_helpers; eauto.
+    - intros n g b a L Ha.
+      destruct (dict_gen_from_regs _ _ _ _ _ _ H L) as [->|(Hin & _ & _)]; [discriminate|].
+      unfold registrations in Hin. apply in_app_iff in Hin. destruct Hin as [Hin|Hin].
+      + apply core_methods_shape in Hin. destruct Hin as [[_ Hg]|(t & _ & ->)]; [|discriminate].
+        destruct g; simpl in *; try discriminate.
+      + apply attr_methods_shape in Hin.
+        destruct Hin as (a' & s & Hin & Hh & [(p & _ & ->)|(p & kd & _ & _ & ->)]);
+          simpl in Ha; inversion Ha; subst; eapply d_attrs_helpers; eauto.
+  Qed.
+End Theorems.
+
+Section Present.
+  Variable singular : name -> option name.
+
+  Lemma use_keeps_none d n0 n : owns d -> lookup n d = None -> lookup n (use d n0) = None.
+  Proof.
+    intros Ho L. unfold use. destruct (lookup n0 d) as [[| | | |g [|]]|] eqn:E; auto.
+    rewrite (Ho _ _ E). rewrite lookup_dset_other; auto. intro; subst. congruence.
+  Qed.
+
+  Lemma use_all_keeps_none ns d n : owns d -> lookup n d = None -> lookup n (use_all d ns) = None.
+  Proof.
+    unfold use_all. revert d. induction ns as [|n0 t IH]; simpl; intros d Ho L; auto.
+    apply IH; auto using use_owns, use_keeps_none.
+  Qed.
+
+  Lemma core_registered c cr :
+    core_enabled c cr = true -> In (core_name cr, GCore cr) (core_methods c).
+  Proof.
+    unfold core_methods. rewrite !in_app_iff. destruct cr; simpl; intro E; try rewrite E; simpl; tauto.
+  Qed.
+
+  Lemma core_backup_registered c cr :
+    In cr [CInit; CRepr; CEq] -> In (core_backup_name cr, GCore cr) (core_methods c).
+  Proof.
+    unfold core_methods. rewrite !in_app_iff. intros [<-|[<-|[<-|[]]]]; simpl; tauto.
+  Qed.
+
+  Lemma core_disabled_absent c attrs cr :
+    core_enabled c cr = false -> ~ In (core_name cr) (map fst (registrations c attrs)).
+  Proof.
+    intros E Hin. apply in_map_iff in Hin. destruct Hin as ([n g] & En & Hin). simpl in En. subst n.
+    unfold registrations in Hin. apply in_app_iff in Hin. destruct Hin as [Hin|Hin].
+    - unfold core_methods in Hin.
+      destruct cr; simpl in E; try discriminate; rewrite E in Hin;
+        destruct (c_init c), (c_repr c), (c_eq c); simpl in Hin;
+        repeat (destruct Hin as [Hin|Hin]; [discriminate|]); destruct Hin.
+    - apply attr_methods_shape in Hin.
+      destruct Hin as (a & s & _ & _ & [(p & En & _)|(p & kd & _ & En & _)]).
+      + pose proof (scalar_name_letter p a) as Hl. rewrite <- En in Hl. destruct cr; discriminate.
+      + pose proof (elem_name_letter p (a_item s)) as Hl. rewrite <- En in Hl. destruct cr; discriminate.
+  Qed.
+
+  Lemma after_use c k d n e uses :
+    decorate singular c k = Ok d -> n <> "__new__" ->
+    lookup n (d_dict d) = Some e -> (forall g, e <> EGen g false) ->
+    lookup n (use_all (instantiate c k (d_dict d)) uses) = Some e.
+  Proof.
+    intros H Hn L He.
+    assert (Ho : owns (d_dict d)) by (eapply decorate_with_owns; eauto).
+    apply use_all_keeps; auto using instantiate_owns.
+    unfold instantiate. destruct (c_lazy c); auto.
+    destruct (lookup "__new__" (body k)); rewrite lookup_dset_other; auto.
+  Qed.
+
+  (* ---- C16_spec_names_present *)
+  Theorem spec_names_present c k d uses :
+    decorate singular c k = Ok d ->
+    let D := use_all (instantiate c k (d_dict d)) uses in
+    (forall cr, In cr [CInit; CRepr; CEq] ->
+       lookup (core_backup_name cr) D = Some (EGen (GCore cr) true)) /\
+    (forall cr, lookup (core_name cr) (body k) = None ->
+       lookup (core_name cr) D = if core_enabled c cr then Some (EGen (GCore cr) true) else None).
+  Proof.
+    intros H D. split.
+    - intros cr Hcr.
+      assert (Hin : In (core_backup_name cr, GCore cr) (registrations c (d_attrs d))).
+      { unfold registrations. apply in_app_iff. left. now apply core_backup_registered. }
+      assert (Hn : core_backup_name cr <> "__new__") by (destruct cr; discriminate).
+      apply after_use; auto; [|intros g Hc; discriminate].
+      rewrite (decorate_dict singular c k d _ H (or_introl Hn)). cbv zeta.
+      rewrite (lookup_rev_regs singular _ _ _ _ _ H Hin).
+      destruct Hcr as [<-|[<-|[<-|[]]]]; simpl;
+        match goal with |- context [lookup ?n (body k)] => destruct (lookup n (body k)) end; reflexivity.
+    - intros cr Hb. assert (Hn : core_name cr <> "__new__") by (destruct cr; discriminate).
+      assert (Ho : owns (d_dict d)) by (eapply decorate_with_owns; eauto).
+      destruct (core_enabled c cr) eqn:E.
+      + assert (Hin : In (core_name cr, GCore cr) (registrations c (d_attrs d))).
+        { unfold registrations. apply in_app_iff. left. now apply core_registered. }
+        apply after_use; auto; [|intros g Hc; discriminate].
+        rewrite (decorate_dict singular c k d _ H (or_introl Hn)). cbv zeta.
+        rewrite (lookup_rev_regs singular _ _ _ _ _ H Hin), Hb.
+        destruct cr; reflexivity.
+      + apply use_all_keeps_none; auto using instantiate_owns.
+        assert (L : lookup (core_name cr) (d_dict d) = None).
+        { rewrite (decorate_dict singular c k d _ H (or_introl Hn)). cbv zeta.
+          assert (lookup (core_name cr) (rev (registrations c (d_attrs d))) = None) as ->.
+          { apply lookup_None_not_In. rewrite map_rev. rewrite <- in_rev. now apply core_disabled_absent. }
+          rewrite Hb. destruct cr; reflexivity. }
+        unfold instantiate. destruct (c_lazy c); auto.
+        destruct (lookup "__new__" (body k)); rewrite lookup_dset_other; auto.
+  Qed.
+End Present.
